@@ -23,6 +23,17 @@ close the height through SetLastPoint / late ACCEPT ballots, run the ticker). Th
 real ticker (Start with a 50us interval, holds expired, Stop) as the scripted op Tick and next to the
 concurrent threads; BallotboxTrace.tla checks for every voteproof of every call kind that its stage
 point was new with respect to a last point the box had when it was emitted (C04-point-not-new).
+Embedded voteproofs are data chosen by the sender (BallotboxFwd.tla): the ID is a free string, so an embedded voteproof
+may repeat the ID and the stage point of a voteproof the box has emitted while its content differs. BallotboxFwd.tla
+models the two ways a ballot reaches the forwarding gate (validated path: suffrage of the ballot's height known, the count
+forwards one of the record's embedded voteproofs and moves the last point; deferred path of a lagging node: only the
+suffrage of the earlier height is known, the last point stays) with the statement's gate (a voteproof of the suffrage) and
+three shortcut gates that trust sender-chosen fields of the voteproof emitted last (TLC: each breaks ForwardedValid); every
+behaviour "V emitted, then a ballot embedding V'" (V' over id {same, fresh} x stage point x nine contents: genuine,
+foreign signers, too few votes, mixed, threshold written too high / too low, false draw, double signer) is a script; the
+recorder builds the really signed voteproofs (same ID by copying the first voteproof's value, as a decoded message
+would), runs the box with a suffrage function that knows the heights up to a bound only, and BallotboxTrace.tla judges
+every forwarded voteproof by its content (C04-invalid-forwarded, C04-forwarded-unknown).
 """
 import os
 import re
@@ -81,6 +92,48 @@ def classify(cls, vp, reset):
     return "%s;%s%s%s" % (cls, kind, ";fwd" if vp["fwd"] else "", (";" + tail) if tail else "")
 
 
+def classify_forwarded(vp, ev, hist, reset):
+    """class of an invalid forwarded voteproof: the path it took, how its sender-chosen ID / stage point relate to the
+    voteproofs the box emitted before in this history, and what is wrong with its content"""
+    nodes = set(reset["nodes"])
+    if ev["a"] == "Vote":
+        path = "deferred(suffrage-of-ballot-height-unknown)" if ev["h"] - 1 > reset.get("sufupto", 1 << 20) else (
+            "sc-record" if ev.get("sc") else "validated")
+    else:
+        path = ev["a"]
+    before = []
+    for e in hist[:-1]:
+        before.extend(e.get("vps", []))
+    me = ev.get("vps", [])
+    before.extend(me[:me.index(vp)] if vp in me else [])
+    pt = lambda v: (v["h"], v["r"], v["s"])
+    other = [v for v in before if v["sfs"] != vp["sfs"] or v["res"] != vp["res"] or v["mf"] != vp["mf"] or v["th10"] != vp["th10"]]
+    if any(v["id"] == vp["id"] and pt(v) == pt(vp) for v in other):
+        rel = "id+point-of-emitted-voteproof"
+    elif any(v["id"] == vp["id"] for v in other):
+        rel = "id-of-emitted-voteproof"
+    elif any(pt(v) == pt(vp) for v in other):
+        rel = "point-of-emitted-voteproof"
+    else:
+        rel = "fresh"
+    signers = [x["n"] for x in vp["sfs"]]
+    if any(x not in nodes for x in signers):
+        bad = "signers-outside-suffrage"
+    elif len(set(signers)) != len(signers):
+        bad = "duplicate-signer"
+    else:
+        err = vp["v1"] or vp["v2"]
+        m = re.search(r'wrong result; voteproof\("([A-Z ]+)"\) != "([A-Z ]+)', err)
+        if m:
+            bad = "wrong-result(%s!=%s)" % (m.group(1).replace(" ", ""), m.group(2).replace(" ", ""))
+        elif err:
+            seg = re.sub(r'"[^"]*"?', "", err.split(";")[-1].split(",")[0])
+            bad = re.sub(r"[^a-z ]+", "", seg.lower()).strip().replace(" ", "-")[:40] or "invalid"
+        else:
+            bad = "recount"
+    return "invalid-forwarded;%s;%s;%s" % (path, rel, bad)
+
+
 def judge(ctx, events, res, source):
     seen = set()
     for (cls, line, info) in res.mismatches():
@@ -116,6 +169,15 @@ def judge(ctx, events, res, source):
         elif vp is None:
             key = cls
             what = "%s at event %d (%s) info=%s" % (cls, line, shared.brief(ev), info)
+        elif cls == "invalid-forwarded":
+            cand = [v for v in vps if (v["h"], v["r"], v["s"]) == (h, r, s) and v["fwd"]]
+            vp = ([v for v in cand if v["v1"] or v["v2"]] or cand or [vp])[0]
+            key = classify_forwarded(vp, ev, hist, reset)
+            what = ("the box forwarded the embedded %s %s voteproof of (h%d r%d s%d), id %s, signed by %s, threshold %s, although it "
+                    "is not a voteproof of the suffrage %s: IsValid=%r IsValidVoteproofWithSuffrage=%r" % (
+                        vp["kind"], vp["res"], vp["h"], vp["r"], vp["s"], vp["id"][-12:],
+                        ["%s:%s" % (x["n"], x["f"]) for x in vp["sfs"]], vp["th10"] / 10.0, reset["nodes"],
+                        vp["v1"][-90:], vp["v2"][-90:]))
         else:
             key = classify(cls, vp, reset)
             what = ("%s: %s %s at (h%d r%d s%d) signed by %s, expels %s, threshold %s, suffrage of %d: IsValid=%r "
@@ -123,6 +185,11 @@ def judge(ctx, events, res, source):
                         cls, vp["kind"], vp["res"], vp["h"], vp["r"], vp["s"],
                         ["%s:%s%s" % (x["n"], x["f"], ("/" + "+".join(x["ex"])) if x["ex"] else "") for x in vp["sfs"]],
                         [x["n"] for x in vp["ex"]], vp["th10"] / 10.0, len(reset["nodes"]), vp["v1"][-90:], vp["v2"][-90:]))
+        if cls == "invalid-forwarded":      # one report per class, the number of histories in extra
+            n = ctx.extra.setdefault("invalid_forwarded_by_class", {})
+            n[key] = n.get(key, 0) + 1
+            if n[key] > 1:
+                continue
         if (key, line) in seen:
             continue
         seen.add((key, line))
@@ -253,6 +320,95 @@ def expel_grid(quick):
     return hs
 
 
+FWD_WEAK = ("trust-id-point", "trust-id", "trust-point-result")
+
+
+def fwd_evp(o, names, t10):
+    """the really signed voteproof behind a content kind of BallotboxFwd.tla"""
+    c = o["ec"]
+    out = ["x7", "x8", "x9"]
+    v = {"name": "fw|%s|%d|%d|%d|%s" % (o["eid"], o["eh"], o["er"], o["es"], c), "id": o["eid"], "h": o["eh"], "r": o["er"],
+         "s": o["es"], "t10": t10, "votes": [[x, "A"] for x in names]}
+    if c == "draw":
+        v["votes"] = [[x, "ABC"[i % 3]] for i, x in enumerate(names)]
+    elif c == "foreign":
+        v["votes"] = [[x, "B"] for x in out]
+        v["force"] = "B"
+    elif c == "few":
+        v["votes"] = [[names[1], "B"]]
+        v["force"] = "B"
+    elif c == "mixed":
+        v["votes"] = [[names[1], "B"], [out[1], "B"], [out[2], "B"]]
+        v["force"] = "B"
+    elif c == "highth":
+        v["votes"] = [[x, "A"] for x in names[:2]]
+        v["t10"] = 1000
+        v["force"] = "A"
+    elif c == "fdraw":
+        v["force"] = "draw"
+    elif c == "twice":
+        v["votes"] = [[names[0], "A"], [names[0], "B"], [names[1], "A"]]
+        v["force"] = "A"
+    elif c == "lowth":
+        v["t10"] = 510
+    return v
+
+
+def fwd_scripts(steps, quick, seed):
+    """behaviours of BallotboxFwd.tla (V emitted, then a ballot embedding V') as scripts"""
+    import json
+    import random
+    uniq = {}
+    for s in steps:
+        k = json.dumps([s["sufupto"], s["ops"]], sort_keys=True)
+        if k in uniq:
+            uniq[k]["crit"] = uniq[k]["crit"] or s["crit"]
+        else:
+            uniq[k] = s
+    rows = [uniq[k] for k in sorted(uniq)]
+
+    def collides(s):
+        a, b = [o for o in s["ops"] if o["op"] == "Vote"]
+        return s["crit"] and a["eid"] == b["eid"] and (a["eh"], a["er"], a["es"]) == (b["eh"], b["er"], b["es"])
+    stats = {"behaviours": len(rows), "critical_offers": sum(1 for s in rows if s["crit"]),
+             "critical_offers_with_emitted_id_and_point": sum(1 for s in rows if collides(s))}
+    if quick:
+        # of the critical offers that re-use the emitted ID and stage point: two (seeded) of every class (path, content of
+        # V', stage point and content of V) + a seeded sample of all other behaviours; the thorough tier runs everything
+        rng = random.Random(seed)
+        groups = {}
+        for s in rows:
+            if collides(s):
+                a, b = [o for o in s["ops"] if o["op"] == "Vote"]
+                groups.setdefault((s["path"], b["ec"], a["eh"], a["er"], a["es"], a["ec"]), []).append(s)
+        picked = []
+        for k in sorted(groups):
+            g = groups[k]
+            rng.shuffle(g)
+            picked.extend(g[:2])
+        rest = [s for s in rows if not collides(s)]
+        rng.shuffle(rest)
+        stats["classes_of_critical_offers_with_emitted_id_and_point"] = len(groups)
+        rows = picked + rest[:150]
+    hs = []
+    for n in ((3,) if quick else (3, 4)):
+        names = ["n%d" % i for i in range(n)]
+        for i, s in enumerate(rows):
+            if n > 3 and not collides(s):     # the larger suffrage: the critical offers with the emitted ID and point only
+                continue
+            ops = []
+            for o in s["ops"]:
+                if o["op"] == "SetLast":
+                    ops.append({"op": "SetLast", "h": o["h"], "r": o["r"], "s": o["s"], "maj": o["maj"], "sc": False})
+                else:
+                    ops.append(vote(names[o["node"]], o["h"], o["r"], o["s"], "A", [names[-1]] if o["sc"] else [], o["sc"],
+                                    evp=fwd_evp(o, names, 670)))
+            hs.append({"n": n, "local": "n0", "t10": 670, "hold": "never", "lag": s["sufupto"] != 99, "sufupto": s["sufupto"],
+                       "ops": ops, "tag": "fwd-n%d-%s-%s-%d" % (n, s["path"], "crit" if s["crit"] else "ctl", i)})
+    stats["scripts_run"] = len(hs)
+    return hs, stats
+
+
 def run(ctx):
     quick = ctx.tier == "quick"
     ctx._stage_spec()
@@ -276,7 +432,21 @@ def run(ctx):
     if not quick:
         jobs.append(lambda: ctx.tlc_simulate("Ballotbox", "Ballotbox_sim7.cfg", num=300, depth=30, timeout=2400))
         jobs.append(lambda: ctx.tlc("Ballotbox", "Ballotbox_impl_tick2.cfg", allow_violation=True, count=False, timeout=1800, workers=4))
+    nbase = len(jobs)
+    # embedded voteproofs as sender-chosen data: every "V emitted, then a ballot embedding V'" behaviour (scripts), the
+    # statement's gate keeps ForwardedValid, each shortcut gate that trusts sender-chosen fields must break it
+    jobs.append(lambda: ctx.tlc_dump_steps("BallotboxFwd", "BallotboxFwd_mc.cfg", timeout=900, workers=4))
+    for g in FWD_WEAK:
+        jobs.append(lambda g=g: ctx.tlc("BallotboxFwd", "BallotboxFwd_weak_%s.cfg" % g, allow_violation=True, count=False,
+                                        timeout=600, workers=2))
     out = shared.parallel(jobs)
+    (rf, fsteps), weak = out[nbase], out[nbase + 1:]
+    out = out[:nbase]
+    for g, w in zip(FWD_WEAK, weak):
+        if not (w.safety_violation and "ForwardedValid" in (w.violated or "")):
+            raise core.MachineryError("BallotboxFwd.tla: the shortcut gate %r does not break ForwardedValid - the model does not "
+                                      "reach the offers it is meant to enumerate" % g)
+    ctx.extra["model_states_forwarding"] = rf.distinct
     r, ri1, ri2, sim, rh, rt1, simh = out[:7]
     rt2 = out[8] if not quick else None
     ctx.exhaustive = True
@@ -308,6 +478,11 @@ def run(ctx):
             h = steps_to_history(b, n=7, tag="sim7-%d" % i)
             if h["ops"]:
                 scripts.append(h)
+    fhs, fstats = fwd_scripts(fsteps, quick, ctx.seed)
+    if not fhs or fstats["critical_offers_with_emitted_id_and_point"] == 0:
+        raise core.MachineryError("BallotboxFwd.tla exported no critical offers: %s" % fstats)
+    scripts.extend(fhs)
+    ctx.extra["forwarding"] = fstats
     sp = os.path.join(ctx.work, "scripts.ndjson")
     core.write_ndjson(sp, scripts)
     parts = [("model-scripts", ["run", "--in", sp]),
@@ -337,7 +512,7 @@ def run(ctx):
             if e.get("ticker"):
                 ticks["concurrent_histories_with_ticker"] += 1
         else:
-            hists[-1]["ops"].append(shared.brief(e))
+            hists[-1]["ops"].append(shared.brief(e) + (("[" + e["evp"]["name"] + "]") if e.get("evp", {}).get("name") else ""))
             for v in e.get("vps", []):
                 hists[-1]["vps"] += 1
                 hists[-1]["kinds"].add(v["kind"] + ":" + v["res"] + (":fwd" if v["fwd"] else "") + (":tick" if e["a"] == "Tick" else ""))
@@ -346,6 +521,23 @@ def run(ctx):
                 ticks["emitting"] += 1 if e.get("vps") else 0
                 ticks["voteproofs"] += len(e.get("vps", []))
     ctx.extra["ticker"] = ticks
+    # forwarding scripts: the model says the first ballot's voteproof V is forwarded; a box that does not is not driven
+    # the way BallotboxFwd.tla describes (machinery, not a verdict)
+    fw = {"histories": 0, "first_forwarded": 0, "second_forwarded": 0}
+    cur = None
+    for e in events:
+        if e["a"] == "Reset":
+            cur = {"fwd": e.get("tag", "").startswith("fwd-"), "votes": 0}
+            fw["histories"] += 1 if cur["fwd"] else 0
+        elif cur and cur["fwd"] and e["a"] == "Vote":
+            cur["votes"] += 1
+            if e.get("vps"):
+                fw["first_forwarded" if cur["votes"] == 1 else "second_forwarded"] += 1
+    ctx.extra["forwarding"].update(fw)
+    if fw["histories"] and fw["first_forwarded"] * 10 < fw["histories"] * 9:
+        raise core.MachineryError("forwarding scripts: the box forwarded the genuine first voteproof in %d of %d histories only: "
+                                  "BallotboxFwd.tla does not describe how the recorder drives the box" % (
+                                      fw["first_forwarded"], fw["histories"]))
     if ticks["runs"] > 20 and ticks["emitting"] == 0:
         raise core.MachineryError("the ticker of the ballot box never emitted a held voteproof in %d runs: the Tick op does not "
                                   "drive countHoldeds (machine too loaded?)" % ticks["runs"])
